@@ -473,17 +473,17 @@ example : ∃ kv ∈ serversOf exCfg exP Orders.id, kv.1 = 1 ∧
     serve exP [⟨[[1]]⟩, ⟨[]⟩] (some 2) kv.2.routes = Served.redir 8443 ∧
     serve exP [⟨[[1]]⟩, ⟨[]⟩] none kv.2.routes = Served.user 1 := by decide
 
-/-- **the unprovisioned redirect matcher gets its hosts in sorted order.**  `makeRedirRoute`'s
-    host matcher is `MatchHost(domains)`, built by phase 1 and never provisioned (no lower-casing,
-    no sort).  For more than `Gen.matchHostLargeThreshold` names `MatchHost` looks exact names up
-    by binary search, which is only correct on a list in its own sort order.  What phase 1
-    guarantees instead: `domains` is in the order `redirDomains` is ranged in — byte-wise sorted
-    since the repair (`sorted_ranges_matches_source`).  FRAGILE GLUE: any change of MatchHost's
-    internal order, or of the iteration order here, silently breaks the redirects of servers with
-    more than the threshold of names (seeded change
-    `C11-matchhost-order-breaks-unprovisioned-redirect-matcher`); names with upper-case letters
-    or placeholders in such lists are outside what this order guarantees. -/
-theorem redirect_matcher_hosts_sorted (R : Name → Name → Prop) (π : Orders) (rd : RD)
+/-- **what the redirect matcher depended on before it was provisioned** (old code: `MatchHost(domains)`
+    built by phase 1 and never provisioned; for more than `Gen.matchHostLargeThreshold` names its
+    lookup is a binary search that is only correct on a list in MatchHost's own sort order).  What
+    phase 1 guaranteed instead — and still does: `domains` is in the order `redirDomains` is ranged
+    in (byte-wise sorted, `sorted_ranges_matches_source`).  Since the fix "provision the host matcher
+    of the automatic HTTP->HTTPS redirect route" the matcher is de-duplicated and provisioned
+    (`mkRedirRoute`), so nothing depends on this order any more; the statement stays as the record
+    of the old dependency (seeded change
+    `C11-matchhost-order-breaks-unprovisioned-redirect-matcher` broke exactly it and is harmless
+    now). -/
+theorem redirect_hosts_sorted_old_code_dependency (R : Name → Name → Prop) (π : Orders) (rd : RD)
     (h : ((pull π.dom rd).map (·.1)).Pairwise R) :
     ∀ ad ∈ domainsByAddr π rd, ad.2.Pairwise (fun x y => R x y ∨ x = y) :=
   redirect_hosts_follow_iteration_order R π rd h
